@@ -78,7 +78,7 @@ theorem addMul_ok {t : IntTy} {π : Policy} (w : t.WF π) (hl : t.LargerOK)
   · rw [e]
     simp only [show (V_EQ).resultOverflow = 0 from rfl, beq_self_eq_true, if_true]
     rw [IntTy.wrap_of_inRange (IntTy.finite_inRange hf)]
-    exact tri_ok w hr0 (add_tri w hl hco dir hr0 h0 hf)
+    exact tri_ok w hr0 (add_tri w hl hco dir hr0 h0 (IntTy.finite_inRange hf))
   · rw [e]
     simp only [resultOverflow_setNeg, show ((-1 : Int) == 0) = false from rfl,
       show ((-1 : Int) == -1) = true from rfl, if_true, Bool.false_eq_true, if_false]
@@ -112,7 +112,7 @@ theorem subMul_ok_partial {t : IntTy} {π : Policy} (w : t.WF π) (hl : t.Larger
   · rw [e]
     simp only [show (V_EQ).resultOverflow = 0 from rfl, beq_self_eq_true, if_true]
     rw [IntTy.wrap_of_inRange (IntTy.finite_inRange hf)]
-    exact tri_ok w hr0 (sub_tri w hl hco dir hr0 h0 hf)
+    exact tri_ok w hr0 (sub_tri w hl hco dir hr0 h0 (IntTy.finite_inRange hf))
   · rw [e]
     simp only [resultOverflow_setNeg, show ((-1 : Int) == 0) = false from rfl,
       show ((-1 : Int) == -1) = true from rfl, if_true, Bool.false_eq_true, if_false]
